@@ -107,6 +107,19 @@ var SharedKinds = []string{"self", "map", "filter", "reshard1", "reshard2", "res
 // consumers get the tasks they asked for (shard count, partitioner, direct or
 // shuffled dependency).
 func EnumShared(nshard, nrows int, materialize bool, a, b int) *Spec {
+	spec, _ := enumShared(nshard, nrows, materialize, a, b, false)
+	return spec
+}
+
+// EnumSharedArg is EnumShared with the shared sub-slice being a reused Result:
+// it returns the program Cogroup(A(r), B(r)) over its Result argument r and
+// the program that computes r (Map(ReaderFunc)). Every consumer that
+// redistributes r gets re-shuffle tasks of its own.
+func EnumSharedArg(nshard, nrows int, a, b int) (main, arg *Spec) {
+	return enumShared(nshard, nrows, false, a, b, true)
+}
+
+func enumShared(nshard, nrows int, materialize bool, a, b int, viaArg bool) (*Spec, *Spec) {
 	spec := &Spec{}
 	src := Node{Op: "readerfunc", Cols: []Col{TInt, TInt}, NShard: nshard, ShardRows: make([][][]int, nshard), Script: []vgen.Chunk{{N: 64}}}
 	for i := 0; i < nrows; i++ {
@@ -115,6 +128,17 @@ func EnumShared(nshard, nrows int, materialize bool, a, b int) *Spec {
 	spec.Nodes = append(spec.Nodes, src)
 	spec.Nodes = append(spec.Nodes, Node{Op: "map", In: []int{0}, Fn: &Fn{Exprs: []Expr{{K: "col", I: 0}, {K: "hash", T: TInt, M: 17}}}, Materialize: materialize})
 	shared := 1
+	var argSpec *Spec
+	if viaArg {
+		argSpec = spec
+		if err := Annotate(argSpec); err != nil {
+			panic(err)
+		}
+		root := argSpec.Nodes[argSpec.Root()]
+		spec = &Spec{Args: []ArgInfo{{Schema: root.Schema, Shards: root.Shards}}}
+		spec.Nodes = append(spec.Nodes, Node{Op: "arg", Arg: 0})
+		shared = 0
+	}
 	consumer := func(k int) int {
 		var n Node
 		switch SharedKinds[k] {
@@ -163,7 +187,7 @@ func EnumShared(nshard, nrows int, materialize bool, a, b int) *Spec {
 	if err := Annotate(spec); err != nil {
 		panic(err)
 	}
-	return spec
+	return spec, argSpec
 }
 
 // EnumCogroupGaps builds Cogroup(A, B) where A holds nkeys distinct keys and B
